@@ -1,6 +1,7 @@
 package stateful
 
 import (
+	"errors"
 	"regexp"
 	"time"
 
@@ -1034,6 +1035,9 @@ var evaluationFuncs = map[operationKey]*evaluationFnInfo{
 				return emptyResultContainer, &ErrSide{error: err, IsRight: true}
 			}
 
+			if right == 0 {
+				return emptyResultContainer, &ErrSide{error: errors.New("runtime error: integer divide by zero"), IsRight: true}
+			}
 			return resultContainer{Int64Value: left / right, IsInt64Value: true}, nil
 		},
 		returnType: ast.TInt,
@@ -1053,6 +1057,9 @@ var evaluationFuncs = map[operationKey]*evaluationFnInfo{
 				return emptyResultContainer, &ErrSide{error: err, IsRight: true}
 			}
 
+			if right == 0 {
+				return emptyResultContainer, &ErrSide{error: errors.New("runtime error: integer divide by zero"), IsRight: true}
+			}
 			return resultContainer{Int64Value: left % right, IsInt64Value: true}, nil
 		},
 		returnType: ast.TInt,
@@ -1186,6 +1193,9 @@ var evaluationFuncs = map[operationKey]*evaluationFnInfo{
 				return emptyResultContainer, &ErrSide{error: err, IsRight: true}
 			}
 
+			if right == 0 {
+				return emptyResultContainer, &ErrSide{error: errors.New("runtime error: integer divide by zero"), IsRight: true}
+			}
 			return resultContainer{DurationValue: left / time.Duration(right), IsDurationValue: true}, nil
 		},
 		returnType: ast.TDuration,
@@ -1222,6 +1232,9 @@ var evaluationFuncs = map[operationKey]*evaluationFnInfo{
 				return emptyResultContainer, &ErrSide{error: err, IsRight: true}
 			}
 
+			if right == 0 {
+				return emptyResultContainer, &ErrSide{error: errors.New("runtime error: integer divide by zero"), IsRight: true}
+			}
 			return resultContainer{Int64Value: int64(left / right), IsInt64Value: true}, nil
 		},
 		returnType: ast.TInt,
